@@ -1,9 +1,10 @@
 //! Hash table implementation for MPQ archives
 
+use super::common::seek_to_table;
 use crate::crypto::{decrypt_block, hash_string, hash_type};
 use crate::{Error, Result};
 use byteorder::{LittleEndian, ReadBytesExt};
-use std::io::{Read, Seek, SeekFrom};
+use std::io::{Read, Seek};
 
 /// Hash table entry (16 bytes)
 #[repr(C)]
@@ -100,10 +101,10 @@ impl HashTable {
         }
 
         // Seek to hash table position
-        reader.seek(SeekFrom::Start(offset))?;
+        let byte_size = size as usize * 16; // 16 bytes per entry
+        seek_to_table(reader, offset, byte_size as u64, "Hash table")?;
 
         // Read raw data
-        let byte_size = size as usize * 16; // 16 bytes per entry
         let mut raw_data = vec![0u8; byte_size];
         reader.read_exact(&mut raw_data)?;
 
